@@ -249,6 +249,7 @@ class GroupbyChunks(Harness):
             for chunks in compositions(n):
                 if tier == "thorough" or len(chunks) <= 2 or chunks == [1] * n:
                     out.append(dict(n=n, contigs=contigs, chunks=chunks, api="track_sum"))
+                    out.append(dict(n=n, contigs=contigs, chunks=chunks, api="track_sum", via="get_data"))
         return out
 
     def inputs(self, skel, V):
@@ -273,6 +274,12 @@ class GroupbyChunks(Harness):
                 k += sz
             g = bnp.Genome.from_dict({c: 20 for c in self.CONTIGS})
             track = g.get_track(NpDataclassStream(iter(chunks), dataclass=BedGraph))
+            if skel.get("via") == "get_data":      # the bedGraph records of the streamed track, summed here
+                d = compute(track.get_data())
+                tot = 0
+                for v_, a_, b_ in zip(ctx.lst(d.value), ctx.lst(d.start), ctx.lst(d.stop)):
+                    tot = tot + v_ * (int(b_) - int(a_))
+                return dict(total=tot, n_records=len(d))
             return dict(total=ctx.lst(compute(track.sum())))
         names = [self.CONTIGS[c] for c in skel["contigs"]]
         starts = [x[f"s{i}"] for i in range(n)]
@@ -349,7 +356,7 @@ class GroupbyChunks(Harness):
     def oracle(self, skel, cx, cout):
         if skel["api"] == "track_sum":
             names = [(self.CONTIGS + ["zz"])[c] for c in skel["contigs"]]
-            desc = f"bedGraph stream with contigs {names} (genome {self.CONTIGS}) cut into chunks of sizes {skel['chunks']}, values {[cx[f'w{i}'] for i in range(skel['n'])]} on 2 bases each"
+            desc = f"bedGraph stream with contigs {names} (genome {self.CONTIGS}) cut into chunks of sizes {skel['chunks']}, values {[cx[f'w{i}'] for i in range(skel['n'])]} on 2 bases each, evaluated through {skel.get('via', 'sum')}"
             if isinstance(cout, Exc):
                 return None if not self._track_ok(skel) else f"{desc}: get_track(...).sum() raised {cout}"
             if not self._track_ok(skel):
